@@ -278,10 +278,21 @@ def run(ctx):
     ctx.setcov("rule", "all definition trees up to depth 3 / width 3 (bounded child pools, see gen_trees) over {SVID, MDLN, ACKC6, V} with optional "
                        "names, 2-4 whitespace styles each, comment at every line end; every closing bracket deleted / item renamed; the shipped "
                        "definitions; non-trivial = definition containing at least one list, or a mutation case")
+    # thread-pair independence first (LINE events are switched off again before the enumeration)
+    from checks import pair_ops  # noqa: PLC0415
+    from mc import pairs  # noqa: PLC0415
+
+    ops = [["gen", t] for t in ("< L < MDLN > < SOFTREV > >", "< L < SVID > >", "< L RPT < L < RPTID > < L V < V > > > >", "< CEID >", "< L < DATAID > < CEID > < L RPT < L < RPTID > < L < V > > > > >")]
+    pair_execs = pairs.run_part(ctx, ops, "C19", 2 if ctx.thorough else 1)
     ctx.run_cases(check_case, cases(ctx), "c19", chunk=32)
 
 
 def replay(ctx, detail):
+    if isinstance(detail.get("case"), dict) and detail["case"].get("part") == "pair":
+        from mc import pairs  # noqa: PLC0415
+
+        pairs.replay_pair(ctx, detail["case"], "C19")
+        return
     res = check_case(detail["case"])
     ctx.evaluations += 1
     for sig, d in res.get("v", ()):
